@@ -1521,7 +1521,9 @@ static void assign_lvar_offsets(Obj *prog) {
         }
       }
 
-      top = align_to(top, MAX(8, ty->align));
+      // Stack arguments are aligned to 8 or, if the type needs more, to
+      // 16 bytes; the stack itself is not aligned any better than that.
+      top = align_to(top, MIN(16, MAX(8, ty->align)));
       var->offset = top;
       top += var->ty->size;
     }
